@@ -75,9 +75,10 @@ func (m *Machine) spawn(name string, fn value, args []value) {
 				m.exitAck <- struct{}{}
 				return
 			}
-			// hand the baton on
+			// hand the baton on; an abort or crash of the program goes straight to
+			// main, no other goroutine may run (and add decisions) after it
 			next := m.pickNext(t)
-			if next == nil {
+			if next == nil || m.pendingAbort != nil {
 				next = m.threads[0] // main: it will notice deadlock / pending abort
 			}
 			m.cur = next
